@@ -176,3 +176,8 @@ func VerifTrace(label string, x float64) {
 }
 func VerifIsSymbolic() bool   { return false }
 func VerifItoa(i int) string { return strconv.Itoa(i) }
+
+// thread-pool contract stub controls (no-ops natively: the real pool runs)
+func VerifPool(k int)             {}
+func VerifPoolInterference() int  { return 0 }
+func VerifNilError() error        { return nil }
